@@ -224,6 +224,7 @@ def run(ctx, model_ok=True, proofs_broken=False):
     seed = ctx.rng.randrange(1 << 30)
     for ct, chunks, oob in mpart_diff.gen_cases(seed, 60 if quick else 700, 150):
         arb.append([mpart_diff.line_of(ct, chunks, oob)])
+    arb += [[l] for l in lib.load_fuzz_lines(("mpart ",))]     # distilled coverage corpus (offline search), deterministic
     cs, cs_meta = conn_scripts(ctx)
     corpus = lib.load_corpus("C14")
     allsc = corpus + wf + arb + cs
